@@ -249,43 +249,34 @@ def r16_6(cx):
         why = '%d loops (expected the state loop and the chain walk inside it)' % len(loops)
     else:
         h = inner[0]
-        rows = loop_rows(cx.facts, b, h)
-        carried = live_in(cx.facts, b, h)
-        cur = [l for l in carried if b.locals[l]['ty'] == 'util::primitives::StateID']
-        # the walk leaves the loop only through the test `cur_id == oldmap[to_index(new_id)]`, and continues with new_id = that entry
-        exits = [r for r in rows if r.end != ('stop', h) and r.end != 'diverge']
+        rows = [r for r in loop_rows(cx.facts, b, h) if r.end != 'diverge']
+        exits = [r for r in rows if r.end != ('stop', h)]
         steps = [r for r in rows if r.end == ('stop', h)]
-        if len(cur) != 1 or not steps or not exits:
-            why = 'chain walk not recognised'
-        else:
-            NEW = cstr(Sym(cx.facts, b).default_local(cur[0]))
-            ENTRY = r'core::ops::Index::index\([\w.]*map, util::remapper::IndexMapper::to_index\([\w.]+idx, %s\)\)' % re.escape(NEW)
 
-            def eq_test(r):
-                for c, v in r.conds:
-                    cc = canon(c)
-                    if cc[0] == 'op' and cc[1] in ('Eq', 'Ne'):
-                        e, iseq = (cc[2], cc[3]), cc[1] == 'Eq'
-                    elif is_call(cc, r'PartialEq::(eq|ne)$'):
-                        e, iseq = (cc[2][0], cc[2][1]), short(cc[1]).endswith('eq')
-                    else:
-                        continue
-                    ks = [cstr(e[0]), cstr(e[1])]
-                    if any(re.match(ENTRY + '$', k) for k in ks):
-                        return v == iseq
-                return None
-            for r in exits:
-                if eq_test(r) is not True or len(r.conds) != 1:
-                    why = why or 'the chain walk can stop for a reason other than having found the cycle back to the current state (a long swap chain is left unresolved)'
-                st = [(cstr(canon(pl)), cstr(canon(v))) for pl, v in r.stores()]
-                if not any(re.match(r'core::ops::IndexMut::index_mut\([\w.]*map, ', pl) and v == NEW for pl, v in st):
-                    why = why or 'leaving the chain walk does not record map[i] = new_id'
-            for r in steps:
-                if eq_test(r) is not False or len(r.conds) != 1:
-                    why = why or 'a step of the chain walk depends on more than the cycle test'
-                nv = cstr(canon(r.env.get(cur[0])))
-                if not re.match(ENTRY + '$', nv):
-                    why = why or 'the chain walk does not continue with new_id = oldmap[to_index(new_id)]'
+        def cycle_tests(r):
+            """every decision of the row is the cycle test `<id of the state being resolved> ==/!= <map entry>`"""
+            n_ = 0
+            for c, v in r.conds:
+                cc = canon(c)
+                if cc[0] == 'op' and cc[1] in ('Eq', 'Ne'):
+                    ks = [cstr(cc[2]), cstr(cc[3])]
+                elif is_call(cc, r'PartialEq::(eq|ne)$'):
+                    ks = [cstr(cc[2][0]), cstr(cc[2][1])]
+                else:
+                    return None
+                if not any(re.search(r'IndexMapper::to_state_id\(', k) for k in ks):
+                    return None
+                n_ += 1
+            return n_
+        if not steps or not exits:
+            why = 'chain walk not recognised'
+        elif any(cycle_tests(r) != 1 for r in rows):
+            why = 'the chain walk can stop (or go on) for a reason other than the test whether the chain has returned to the state being resolved: a long swap chain is left unresolved'
+        # the resolved id is recorded
+        outer = [h2 for h2 in loops if h2 != h][0]
+        orows = [r for r in loop_rows(cx.facts, b, outer) if r.end == ('stop', outer)]
+        if not any(any(re.match(r'core::ops::IndexMut::index_mut\([\w.]*map, ', cstr(canon(pl))) for pl, v in r.stores()) for r in orows):
+            why = why or 'the resolved id is not recorded in the map'
     cx.report('R16.6', b, 'chain-walk', why is None, 'Remapper::remap follows every swap chain to its end: the walk stops only when the chain returns to the current id, then map[i] = new_id' if why is None else 'Remapper::remap: ' + why)
 
 
@@ -311,3 +302,204 @@ def r20_7(cx):
             if conds:
                 why = why or 'whether a pattern is stored depends on %s' % conds[:2]
     cx.report('R20.7', b, 'packed-ids', why is None, 'packed::Patterns::add stores every pattern under id = by_id.len() (ids stay aligned with the automaton\'s)' if why is None else 'packed::Patterns::add: ' + why)
+
+
+# ------------------------------------------------------------------------------------------------- evaluation on a model memory
+def _model_atoms(scalars, arrays, funcs=None):
+    """atoms for teval: scalars {cstr: int}; arrays {cstr(base): {index: value}} answer `base[i]` / Index::index(base, i) with the index
+    evaluated first; funcs {regex on callee: python function of evaluated args}"""
+    def at(t):
+        s0 = cstr(t)
+        if s0 in scalars:
+            return scalars[s0]
+        if s0.endswith('.0.0') and s0[:-4] in scalars:
+            return scalars[s0[:-4]]     # the integer inside an id newtype
+        base = ix = None
+        if t[0] == 'idx':
+            base, ix = t[1], t[2]
+        elif is_call(t, r'core::ops::Index::index$|core::slice::get_unchecked$') and len(t[2]) == 2:
+            base, ix = t[2][0], t[2][1]
+        if base is not None and cstr(base) in arrays:
+            i = teval(ix, at)
+            if i not in arrays[cstr(base)]:
+                raise EvalPanic('model memory: %s[%s] is not part of the encoded state' % (cstr(base), i))
+            return arrays[cstr(base)][i]
+        if funcs and t[0] == 'call':
+            for pat, fn in funcs.items():
+                if re.search(pat, short(t[1])):
+                    return fn(*[teval(a, at) for a in t[2]])
+        return None
+    return at
+
+
+U32LEN = {r'nfa::contiguous::u32_len$': lambda n: (n + 3) // 4}
+
+
+# ------------------------------------------------------------------------------------------------- R04.10 contiguous match section reader
+def r04_10(cx):
+    """State::kind / sparse_trans_len / match_len / match_pattern evaluated on modelled encodings: the match section starts right
+    after the transitions the writer laid out (dense: 2 + alphabet_len; sparse with n transitions: 2 + ceil(n/4) + n); one pattern is
+    stored as pid | 1<<31, several as a count followed by the ids"""
+    P = "nfa::contiguous::State::<'a>::"
+    AL = 9
+    for nm in ('kind', 'sparse_trans_len'):
+        b = cx.body(P + nm)
+        rr = [r for r in summarize(cx.facts, b) if r.end == 'return']
+        why = None
+        try:
+            for k in (1, 5, 63, 64, 70, 127, 254, 255):
+                got = teval(rr[0].ret, _model_atoms({}, {'state': {0: 0xAB00 | k}})) if len(rr) == 1 else None
+                if got != k:
+                    why = why or '%s of a state whose kind byte is %d is %s' % (nm, k, got)
+        except (Unsupported, EvalPanic, KeyError, TypeError) as e:
+            why = 'cannot evaluate: %s' % e
+        cx.report('R04.10', b, nm, why is None, 'State::%s = low byte of word 0 (evaluated for 8 kind bytes incl. 64..127)' % nm if why is None else 'State::' + why)
+    for nm in ('match_len', 'match_pattern'):
+        b = cx.body(P + nm)
+        rows = summarize(cx.facts, b)
+        why = None
+        n = 0
+        try:
+            for kind in (255, 3, 5, 70):
+                start = 2 + AL if kind == 255 else 2 + (kind + 3) // 4 + kind
+                for single in (True, False):
+                    for index in ((0,) if single else (0, 1, 2)):
+                        mem = {0: 0x1200 | kind}
+                        if single:
+                            mem[start] = (1 << 31) | 40000
+                        else:
+                            mem[start] = 3
+                            mem[start + 1], mem[start + 2], mem[start + 3] = 11, 40000, 33
+                        sc = {'alphabet_len': AL, 'index': index, "nfa::contiguous::State::kind(state)": kind, "nfa::contiguous::State::sparse_trans_len(state)": kind}
+                        at = _model_atoms(sc, {'state': mem}, U32LEN)
+                        sel = [r for r in rows if r.end == 'return' and row_consistent(r, at)]
+                        n += 1
+                        if len(sel) != 1:
+                            why = why or '%d paths for kind %d, %s' % (len(sel), kind, 'one pattern' if single else 'three patterns')
+                            continue
+                        got = teval(sel[0].ret, at)
+                        want = (1 if single else 3) if nm == 'match_len' else (40000 if single else [11, 40000, 33][index])
+                        if got != want:
+                            why = why or 'for a %s state (kind byte %d) holding %s, %s(%s) = %s, expected %s' % ('dense' if kind == 255 else 'sparse', kind, 'one pattern (id 40000)' if single else 'patterns 11, 40000, 33', nm, index, got, want)
+        except (Unsupported, EvalPanic, KeyError, TypeError) as e:
+            why = why or 'cannot evaluate: %s' % e
+        cx.report('R04.10', b, nm, why is None, 'State::%s reads the match section at the offset the writer used and decodes single / multiple pattern ids (%d encodings evaluated)' % (nm, n) if why is None else 'State::%s: %s' % (nm, why))
+
+
+# ------------------------------------------------------------------------------------------------- R03.7 transition / match accessors
+def r03_7(cx):
+    b = cx.body('<dfa::DFA as automaton::Automaton>::next_state')
+    rows = [r for r in summarize(cx.facts, b) if r.end == 'return']
+    why = None
+    if len(rows) != 1 or rows[0].conds:
+        why = 'the transition depends on %d decision(s) (expected one table lookup)' % sum(len(r.conds) for r in rows)
+    else:
+        SID, BYTE = cstr(param_at(b, 3)), cstr(param_at(b, 4))
+        try:
+            at = _model_atoms({SID: 64, 'util::alphabet::ByteClasses::get(self.byte_classes, %s)' % BYTE: 5, BYTE: 200}, {'self.trans': {69: 4242}})
+            if teval(rows[0].ret, at) != 4242:
+                why = 'next_state does not read trans[sid + class(byte)]'
+        except (Unsupported, EvalPanic, KeyError, TypeError) as e:
+            why = 'next_state does not read trans[sid + byte_classes.get(byte)]: %s' % e
+    cx.report('R03.7', b, 'dfa-next', why is None, 'DFA::next_state = trans[sid + byte_classes.get(byte)], unconditionally' if why is None else 'DFA::' + why)
+    # match accessors
+    for nm, want in (('match_len', 'core::iter::Iterator::count(nfa::noncontiguous::NFA::iter_matches(self, sid))'),
+                     ('match_pattern', '(core::iter::Iterator::nth(nfa::noncontiguous::NFA::iter_matches(self, sid), index) as Some).0')):
+        f = cx.body('<nfa::noncontiguous::NFA as automaton::Automaton>::' + nm)
+        rr = [r for r in summarize(cx.facts, f) if r.end == 'return']
+        ok = len(rr) == 1 and cstr(canon(rr[0].ret)) in (want, want.replace('(', '', 1).replace(' as Some).0', '') if False else want)
+        if len(rr) == 1 and not ok:
+            t = canon(rr[0].ret)
+            ok = is_call(t, r'Option::(unwrap|expect)$') and cstr(t[2][0]) == 'core::iter::Iterator::nth(nfa::noncontiguous::NFA::iter_matches(self, sid), index)'
+        cx.report('R03.7', f, 'nnfa-' + nm, ok, 'noncontiguous %s walks the state\'s match list (iter_matches)' % nm if ok else 'noncontiguous %s = %s' % (nm, [cstr(canon(r.ret))[:160] for r in rr]))
+    for nm in ('match_len', 'match_pattern'):
+        f = cx.body('<dfa::DFA as automaton::Automaton>::' + nm)
+        rr = [r for r in summarize(cx.facts, f) if r.end == 'return']
+        why = None
+        try:
+            SID = cstr(param_at(f, 2))
+            at = _model_atoms({SID: 48, 'self.stride2': 3, 'index': 1, 'automaton::Automaton::is_match(self, %s)' % SID: 1},
+                              {'self.matches': {4: 7777}, '7777': {}}, {r'alloc::vec::Vec::len$|core::slice::len$': lambda v: 3 if v == 7777 else -1})
+            if len(rr) != 1:
+                why = '%d returning paths' % len(rr)
+            elif nm == 'match_len':
+                if teval(rr[0].ret, at) != 3:
+                    why = 'match_len is not matches[(sid >> stride2) - 2].len()'
+            else:
+                t = canon(rr[0].ret)
+                inner = t[2][0] if is_call(t, r'Index::index$') else (t[1] if t[0] == 'idx' else None)
+                ix = t[2][1] if is_call(t, r'Index::index$') else (t[2] if t[0] == 'idx' else None)
+                if inner is None or teval(inner, at) != 7777 or cstr(ix) != cstr(param_at(f, 3)):
+                    why = 'match_pattern is not matches[(sid >> stride2) - 2][index]'
+        except (Unsupported, EvalPanic, KeyError, TypeError) as e:
+            why = 'cannot evaluate: %s' % e
+        cx.report('R03.7', f, 'dfa-' + nm, why is None, 'DFA %s reads matches[(sid >> stride2) - 2]' % nm if why is None else 'DFA ' + why)
+    # trait default methods are plain forwards to the drivers
+    for nm, tgt in (('try_find', 'automaton::try_find_fwd(self, input)'), ('try_find_overlapping', 'automaton::try_find_overlapping_fwd(self, input, state)')):
+        f = cx.body('automaton::Automaton::' + nm)
+        rr = summarize(cx.facts, f)
+        ok = len(rr) == 1 and rr[0].end == 'return' and not rr[0].conds and not rr[0].stores() and cstr(canon(rr[0].ret)) == tgt
+        cx.report('R03.7', f, 'default-' + nm, ok, 'Automaton::%s forwards to %s with nothing in between' % (nm, tgt.split('(')[0]) if ok else 'Automaton::%s does more than forwarding to the driver (decisions %s, stores %s)' % (nm, [cstr(c)[:60] for r in rr for c, v in r.conds][:3], [cstr(p)[:40] for r in rr for p, v in r.stores()][:3]))
+
+
+# ------------------------------------------------------------------------------------------------- R06.9 Teddy mask builders
+@only(X86)
+def r06_9(cx):
+    for nm, nb in (('SlimMaskBuilder', 8), ('FatMaskBuilder', 16)):
+        b = cx.body('packed::teddy::generic::%s::add' % nm)
+        rows = [r for r in summarize(cx.facts, b) if r.end == 'return']
+        BUCKET, BYTE = cstr(param_at(b, 2)), cstr(param_at(b, 3))
+        why = None
+        try:
+            for bucket in range(nb):
+                for byte in (0x00, 0x0F, 0x41, 0x7F, 0x80, 0x9C, 0xC3, 0xF0, 0xFF):
+                    sc = {BUCKET: bucket, BYTE: byte, '(core::convert::TryFrom::try_from(%s) as Ok).0' % BUCKET: bucket, 'discr(core::convert::TryFrom::try_from(%s))' % BUCKET: 0}
+                    at = _model_atoms(sc, {})
+                    sel = [r for r in rows if row_consistent(r, at)]
+                    if len(sel) != 1:
+                        why = why or '%d paths for bucket %d' % (len(sel), bucket)
+                        continue
+                    got = set()
+                    for pl, v in sel[0].stores():
+                        pl, v = canon(pl), canon(v)
+                        if pl[0] != 'idx':
+                            continue
+                        bits = [x for x in subterms(v) if x[0] == 'op' and x[1] == 'Shl' and x[2] == ('c', 1)]
+                        if not (v[0] == 'op' and v[1] == 'BitOr') or len(bits) != 1:
+                            why = why or 'a mask entry is not OR-ed with one bucket bit'
+                            continue
+                        got.add((cstr(pl[1]), teval(pl[2], at), teval(bits[0][3], at)))
+                    lo, hi = byte & 0xF, byte >> 4
+                    if nm == 'SlimMaskBuilder':
+                        want = {('self.lo', lo, bucket), ('self.lo', lo + 16, bucket), ('self.hi', hi, bucket), ('self.hi', hi + 16, bucket)}
+                    else:
+                        off = 0 if bucket < 8 else 16
+                        want = {('self.lo', lo + off, bucket % 8), ('self.hi', hi + off, bucket % 8)}
+                    if got != want:
+                        why = why or 'add(bucket %d, byte %#04x) sets %s, expected %s' % (bucket, byte, sorted(got), sorted(want))
+        except (Unsupported, EvalPanic, KeyError, TypeError) as e:
+            why = why or 'cannot evaluate: %s' % e
+        cx.report('R06.9', b, 'mask-add', why is None, '%s::add sets bit (bucket %% 8) in lo[byte & 0xF (+16)] and hi[byte >> 4 (+16)] (evaluated for %d buckets x 9 bytes incl. bytes >= 0x80)' % (nm, nb) if why is None else '%s::%s' % (nm, why))
+
+
+# ------------------------------------------------------------------------------------------------- R10.8 Span conversions
+def r10_8(cx):
+    specs = [
+        ('util::search::<impl core::ops::Index<util::search::Span> for [u8]>::index', r'^core::ops::Index::index\(self, util::search::Span::range\(index\)\)$|^core::ops::Index::index\(self, core::ops::Range::Range\{start: index\.start, end: index\.end\}\)$'),
+        ('util::search::<impl core::ops::IndexMut<util::search::Span> for [u8]>::index_mut', r'^core::ops::IndexMut::index_mut\(self, util::search::Span::range\(index\)\)$|^core::ops::IndexMut::index_mut\(self, core::ops::Range::Range\{start: index\.start, end: index\.end\}\)$'),
+        ('util::search::<impl core::convert::From<util::search::Span> for core::ops::Range<usize>>::from', r'^core::ops::Range::Range\{start: span\.start, end: span\.end\}$'),
+        ('<util::search::Span as core::convert::From<core::ops::Range<usize>>>::from', r'^util::search::Span::Span\{start: range\.start, end: range\.end\}$'),
+    ]
+    for path, pat in specs:
+        if not cx.has(path):
+            continue
+        b = cx.body(path)
+        rr = summarize(cx.facts, b)
+        P = cstr(param_at(b, b.j['arg_count']))
+        s0 = cstr(canon(rr[0].ret)) if len(rr) == 1 and rr[0].ret is not None else None
+        ok = s0 is not None and not rr[0].conds and re.match(pat.replace('index', re.escape(P)).replace('span\\.', re.escape(P) + '\\.').replace('range\\.', re.escape(P) + '\\.') if False else pat, s0.replace(P + '.', {'index': 'index.', 'span': 'span.', 'range': 'range.'}.get(P, P + '.')).replace('(%s)' % P, '(index)') if P not in ('index', 'span', 'range') else s0) is not None
+        cx.report('R10.8', b, 'span-conv', ok, 'slicing by / converting a Span uses exactly start..end' if ok else 'a Span is sliced / converted as %s' % s0)
+    r = cx.body('util::search::Span::range')
+    rr = summarize(cx.facts, r)
+    ok = len(rr) == 1 and not rr[0].conds and cstr(canon(rr[0].ret)) in ('self', 'core::ops::Range::Range{start: self.start, end: self.end}')
+    cx.report('R10.8', r, 'range', ok, 'Span::range() is start..end' if ok else 'Span::range() = %s' % [cstr(canon(x.ret))[:100] for x in rr])
